@@ -190,6 +190,41 @@ def run(ctx):
                     cal = prog.fn(n0["callee"])
                     keys.append((n0["callee"], frozenset(_storage_written(prog, cal, 0, tls)) if cal is not None else frozenset()))
         ctx.need("R05.4", "set_severity instantiations in the witness", len(keys), 3)
+        # the threshold object is constant-initialised: a dynamic initialiser runs at an unspecified point of static initialisation and
+        # overwrites a threshold that a global object's constructor has configured before
+        dyn = []
+        nst = 0
+        for key in sorted({k0 for _, ks in keys for k0 in ks}):
+            dk = key.split("|")[-1]
+            qn = dk.split(":", 1)[1] if ":" in dk else dk
+            init = None
+            found = False
+            for cname, c0 in prog.classes.items():
+                for fl in c0.get("fields", []):
+                    if fl.get("static") and fl.get("qual") == qn:
+                        found = True
+                        init = fl.get("init")
+            if not found:
+                for g in prog.fns.values():
+                    if not g.has_cfg:
+                        continue
+                    for _, _, e0 in g.roots():
+                        x0 = e0["expr"]
+                        if x0.get("k") == "decl":
+                            for v0 in x0.get("vars", []):
+                                if v0.get("static") and v0.get("qual") == qn:
+                                    found = True
+                                    init = v0.get("init")
+            if not found:
+                continue
+            nst += 1
+            calls = [fmt(y)[:60] for y in walk(init) if isinstance(y, dict) and y.get("k") in ("call", "ucall", "lambda", "new")] if isinstance(init, dict) else []
+            if calls:
+                dyn.append((qn, calls[0]))
+        if nst:
+            ctx.check(not dyn, "R05.4", "nitro::log::filter::severity_filter", "threshold-is-constant-initialised",
+                      "the threshold object %s is initialised by %s at run time: a threshold configured during static initialisation (a global object's constructor) is overwritten when that "
+                      "initialiser runs, and statements below the configured threshold are evaluated, formatted and sunk" % (dyn[0] if dyn else "", dyn[0][1] if dyn else ""), "-", why_ok="constant initialiser")
         ctx.check(not tls, "R05.4", "nitro::log::filter::severity_filter", "threshold-is-process-wide",
                   "the threshold object %s is thread_local: a threshold configured on one thread is invisible to every other thread, whose statements are judged against the initial value "
                   "(records below the configured threshold are accepted, formatted and sunk there)" % sorted(tls), "-", why_ok="static storage, one object per process")
